@@ -6,6 +6,7 @@ import (
 	"encoding/json"
 	"fmt"
 	"math/big"
+	big2 "math/big"
 	"math/rand"
 	"sort"
 
@@ -70,6 +71,7 @@ type DexLine struct {
 	HoldingOK bool `json:"holdingOK"`
 	PointsOK  bool `json:"pointsOK"`
 	SupplyOK  bool `json:"supplyOK"`
+	KOK       bool `json:"kOK"` // every swap of this delivery: paid < reserve and (x+dX)(y-dY) >= xy
 }
 
 type dexChain struct {
@@ -246,9 +248,11 @@ func (c *dexChain) fillBig(l *DexLine) {
 	}
 	l.PointsOK = pts.Cmp(new(big.Int).SetUint64(st.Tot)) == 0
 	l.SupplyOK = bigSum(st).Cmp(c.supply0) == 0
+	l.KOK = true
 }
 
 func dexMode(seed int64, runs, rounds int, big bool, out *json.Encoder) error {
+	_ = new(big2.Int)
 	rng := rand.New(rand.NewSource(seed))
 	for r := 0; r < runs; r++ {
 		store.VerifPurgeBlockCache()
@@ -297,7 +301,11 @@ func dexMode(seed int64, runs, rounds int, big bool, out *json.Encoder) error {
 					who := rng.Intn(len(c.accts))
 					l := DexLine{E: "dex", Chain: c.name, A: fmt.Sprintf("a%d", who), Big: big, Perm: []int{}, Remote: c.batchRec(nil, false)}
 					var e lib.ErrorI
-					switch rng.Intn(4) {
+					pick := rng.Intn(4)
+					if big {
+						pick = 0 // orders only: the reserves before the swaps of a delivery follow from the logged batches
+					}
+					switch pick {
 					case 0, 1:
 						l.Op, l.Amt = "order", amt()
 						if rng.Intn(2) == 0 {
@@ -376,6 +384,33 @@ func dexMode(seed int64, runs, rounds int, big bool, out *json.Encoder) error {
 					l.NewId = st.Lck.Id
 				}
 				c.fillBig(&l)
+				l.KOK = true
+				if big && he == nil && st.Lck.Id != before.Lck.Id && len(st.Lck.Receipts) == len(remote.Orders) {
+					// x: the counter pool as handed over minus what it already paid for our own locked orders; y: our pool
+					// after our own orders settled (= the pool recorded in the batch that was just locked)
+					x := new(big2.Int).SetUint64(remote.PoolSize)
+					if len(before.Lck.Orders) == len(remote.Receipts) && before.Lck.Id != "" {
+						for _, rc := range remote.Receipts {
+							x.Sub(x, new(big2.Int).SetUint64(rc))
+						}
+					}
+					y := new(big2.Int).SetUint64(st.Lck.Pool)
+					for _, i := range l.Perm {
+						dx, dy := new(big2.Int).SetUint64(remote.Orders[i-1].AmountForSale), new(big2.Int).SetUint64(st.Lck.Receipts[i-1])
+						if dy.Sign() == 0 {
+							continue
+						}
+						k0 := new(big2.Int).Mul(x, y)
+						if dy.Cmp(y) >= 0 {
+							l.KOK = false
+						}
+						x.Add(x, dx)
+						y.Sub(y, dy)
+						if new(big2.Int).Mul(x, y).Cmp(k0) < 0 {
+							l.KOK = false
+						}
+					}
+				}
 				_ = out.Encode(l)
 				if failed {
 					break
@@ -455,6 +490,26 @@ func swapMode(seed int64, runs, steps int, out *json.Encoder) error {
 			}
 			sort.Slice(st.Book, func(i, j int) bool { return st.Book[i].Id < st.Book[j].Id })
 			return st, nil
+		}
+		// orders imported the way genesis does (SetOrderBooks): keyed and escrowed by the book's chain id; the order's own
+		// committee field is whatever the file says
+		if r%2 == 1 {
+			book := &lib.OrderBook{ChainId: chain}
+			for j := 0; j < 2; j++ {
+				id := make([]byte, 20)
+				rng.Read(id)
+				committee := uint64(0)
+				if j == 1 {
+					committee = chain
+				}
+				book.Orders = append(book.Orders, &lib.SellOrder{Id: id, Committee: committee, AmountForSale: 2000 + uint64(j)*1000, RequestedAmount: 5,
+					SellerReceiveAddress: c.accts[j].Bytes(), SellersSendAddress: c.accts[j].Bytes()})
+				ids = append(ids, id)
+				idOf[string(id)] = len(ids)
+			}
+			if e := s.SetOrderBooks(&lib.OrderBooks{OrderBooks: []*lib.OrderBook{book}}, &fsm.Supply{}); e != nil {
+				return e
+			}
 		}
 		st0, e := state()
 		if e != nil {
